@@ -818,7 +818,7 @@ Definition ox_mv_after : move := mkMove 1 0 [(2, 3)].
 
 Example ox_wf : wf_input ox_inp.
 Proof.
-  split; [|split; [|split; [|exact (Forall_nil _)]]].
+  split; [|split; [|split; [|split; [exact (Forall_nil _)|mult_wf]]]].
   - vm_compute. repeat (constructor; [simpl; lia|]). constructor.
   - intros x. vm_compute. lia.
   - intros u Hu. vm_compute in Hu. destruct Hu as [<-|[<-|[]]]; discriminate.
@@ -1004,7 +1004,7 @@ Proof.
   assert (Hu : 0 < nunits ox_inp_bad) by (vm_compute; lia).
   assert (Hv : 0 < nveh ox_inp_bad) by (vm_compute; lia).
   split; [|split; [vm_compute; reflexivity|split]].
-  - split; [|split; [|split; [|exact (Forall_nil _)]]].
+  - split; [|split; [|split; [|split; [exact (Forall_nil _)|mult_wf]]]].
     + vm_compute. repeat (constructor; [simpl; lia|]). constructor.
     + intros x. vm_compute. lia.
     + intros u Hin. vm_compute in Hin. destruct Hin as [<-|[<-|[]]]; discriminate.
